@@ -11,6 +11,13 @@ extern "C" const vapi dflt_api;
 static const vapi *A = &dflt_api;
 static TailBuf TB(4096);
 static const Bytes *g_bytes;
+static Obj *VET = nullptr;
+static void make_vet() {
+    VET = new Obj(A); A->obj_set_tld(VET->p, 0);
+    A->obj_set_mode(VET->p, 1); A->obj_setup(VET->p); A->obj_set_mode(VET->p, 3); A->obj_setup(VET->p);
+    A->obj_set_rfc_raw(VET->p, 77); (void) A->obj_setup(VET->p);
+    A->obj_set_mode(VET->p, 3); if (A->obj_setup(VET->p) != 0) abort();
+}
 
 static Case mkcase(const Bytes &b) { Case c; c.b("local", b); return c; }
 
@@ -39,6 +46,10 @@ static std::optional<Failure> check_one(Run &R, const Bytes &b) {
             return Failure{cls, mkcase(b).str(), "mode 6531 local part '" + show(b) + "' (" + (t ? "NUL" : "'@'") + " after it): reference says " +
                                                   (want ? "valid" : (wf ? "invalid (grammar)" : "invalid (malformed UTF-8)")) + ", is_6531_local returned " + std::to_string(rc)};
         }
+    }
+    if (VET && b.size() <= 64 && b.find('@') == Bytes::npos) {   // the same verdict through eav_is_email on an object that reached mode 6531 through a history
+        v_outcome o = VET->is_email_tail(TB, b + "@ok.com"); R.eval();
+        if ((o.ret == 1) != want) return Failure{"6531-through-reused-object", mkcase(b).str(), "eav_is_email in mode 6531 (object set up 5321 -> 6531 -> refused setup -> 6531) on '" + show(b) + "@ok.com': " + outcome_str(o) + ", reference says the local part is " + (want ? "valid" : "invalid")};
     }
     if (r_at != r_nul)
         return Failure{"terminator-dependent", mkcase(b).str(), "return code differs between '@' and NUL terminator: " + std::to_string(r_at) + " vs " + std::to_string(r_nul)};
@@ -201,6 +212,7 @@ int main(int argc, char **argv) {
     Run R; R.a = parse_args(argc, argv); R.prop = "C03";
     install_death(R.a);
     inflight() = [] { return g_bytes ? mkcase(*g_bytes).str() : std::string(); };
+    make_vet();
     if (!R.a.replay.empty()) {
         Case rc_ = Case::parse(R.a.replay);
         auto f = rc_.has("huge") ? check_huge(R, (int) rc_.geti("shape")) : check_one(R, rc_.getb("local"));
@@ -218,6 +230,6 @@ int main(int argc, char **argv) {
     return finish(R);
 }
 #else
-VF_FUZZ_TARGET("C03", nullptr, [](Run &R, const uint8_t *d, size_t n) -> std::optional<Failure> {
+VF_FUZZ_TARGET("C03", [](Run &) { make_vet(); return true; }, [](Run &R, const uint8_t *d, size_t n) -> std::optional<Failure> {
     Bytes l = fuzz_bytes(d, n); R.sample("fuzz", show(l.substr(0, 80)), 4); return check_one(R, l); })
 #endif
